@@ -10,6 +10,9 @@ assert not os.path.realpath(root).startswith("/repo"), "refusing to touch /repo"
 def sub(path, old, new, count=1):
     p = os.path.join(root, path)
     s = open(p).read()
+    if new in s:
+        print(f"already applied in {path}")
+        return
     assert old in s, f"pattern not found in {path}: {old[:60]}"
     s = s.replace(old, new, count)
     open(p, "w").write(s)
@@ -37,9 +40,9 @@ if "1" in which:
                 let connection = self.connection_pool.connection()?;
                 let transaction = connection.begin_transaction()?;
                 connection.fetch_first(
-                    DeleteCardanoBlockAndTransactionQuery::below_block_number_threshold(BlockNumber(
-                        i64::MAX as u64,
-                    ))?,
+                    DeleteCardanoBlockAndTransactionQuery::below_block_number_threshold(
+                        BlockNumber(i64::MAX as u64),
+                    )?,
                 )?;
                 connection.fetch_first(
                     DeleteBlockRangeRootQuery::contains_or_above_block_number_threshold(
